@@ -3,6 +3,7 @@ import ExprModel.Drv.Code
 import ExprModel.Drv.Lex
 import ExprModel.Drv.Source
 import ExprModel.Drv.Spec
+import ExprModel.Drv.Types
 import ExprModel.Drv.Walk
 /-
 The model driver: one request per line on stdin (an S-expression `(tag arg…)`), one response per line
@@ -17,7 +18,8 @@ def handlers : List (String × (List Sexp → Sexp)) :=
   Drv.specHandlers ++
   Drv.sourceHandlers ++
   Drv.lexHandlers ++
-  Drv.walkHandlers
+  Drv.walkHandlers ++
+  Drv.typesHandlers
 
 def dispatch (req : Sexp) : Sexp :=
   match req with
